@@ -66,6 +66,11 @@ def gen_ops(kind, K, ln, with_prep, small):
                 call("transform", "transform:default_index", i, FN("inc"))
                 call("without", "without:default_index", i)
                 call("update", "update:default_index", i, U[0])
+                # ... unless the caller says otherwise: an explicit _by_index=False is a request to address BY VALUE, and
+                # an int is no element of such a list (plain `list.remove(1)` -> ValueError)
+                call("transform", "transform:by_value_nonitem", i, FN("inc"), _by_index=False)
+                call("without", "without:by_value_nonitem", i, _by_index=False)
+                call("update", "update:by_value_nonitem", i, U[0], _by_index=False)
         for x in U:
             for bi, tag in ((None, "default_value"), (False, "by_value")):
                 kw = {} if bi is None else {"_by_index": False}
@@ -496,6 +501,8 @@ def main(run):
         for rec in variants:
             tasks.append({"rec": rec, "max_len": (3 if kind in ("nums", "words", "scores", "tags", "labels") else 2) if quick else (4 if kind in ("nums", "words", "tags", "labels") else 3),
                           "tier": run.tier})
+    # the stored dict is a defaultdict: looking a key up would CREATE it - a missing key must still be reported
+    tasks.append({"rec": G.single("scores", "ddict"), "max_len": 2 if quick else 3, "tier": run.tier})
     for kind, opts in (("fkids", {"leaf_is_frozen": True}), ("invs", {})):
         for dflt in ("none", "mut"):
             tasks.append({"rec": {"name": f"C06_{kind}_{dflt}", "attrs": [{"kind": kind, "default": dflt}], "opts": dict(opts)}, "max_len": 2 if quick else 3,
